@@ -53,7 +53,7 @@ pub fn run_one(cfg: &Cfg, rng_seed: u64) -> (sim::RunResult, single::Findings, N
     for (i, cmd) in [format!("fn both tid={tid32}"), format!("ping tid={tid32}"), format!("ann 1 7 random tid={tid32}"), format!("ann 9 7 valid tid={tid32}")].iter().enumerate() {
         b.sc.actions.push((When::At(t + 10 * i as u64), Action::PeerCommand { peer: single::client_addr(askers[0]), cmd: cmd.clone() }));
     }
-    b.sc.horizon_ms = t + 200;
+    b.sc.horizon_ms = t + 700;
     let res = single::run_built(b);
     let mut model = single::Model::default();
     let f = single::check(&res, &ncfg, &mut model);
